@@ -41,7 +41,11 @@ func (d *Driver) read() {
 		if err != nil {
 			verifYield("N_send")
 
-			d.errs <- err
+			select {
+			case d.errs <- err:
+			case <-d.done:
+				return
+			}
 
 			verifYield("N_sent")
 		}
